@@ -329,6 +329,95 @@ Proof.
 Qed.
 End RealDensity.
 
+Lemma rsum_scal_l m c (h : nat -> R) : rsum m (fun i => c * h i) = c * rsum m h.
+Proof. induction m as [|m IH]; cbn [DP.rsum]; [ring|]. rewrite IH. ring. Qed.
+Lemma rsum_scal_r m c (h : nat -> R) : rsum m (fun i => h i * c) = rsum m h * c.
+Proof. induction m as [|m IH]; cbn [DP.rsum]; [ring|]. rewrite IH. ring. Qed.
+
+(* ------------------------------------------------------------------ *)
+(* 2b. the symbols are the mixed derivatives of the reduced density matrix gamma(r, r') *)
+(* ------------------------------------------------------------------ *)
+(* a tower K(o) of functions, each differentiable along each axis to the next one: then K(o) = pd3 o K(0) *)
+Lemma pd3_tower (K : nat -> nat -> nat -> R -> R -> R -> R) :
+  (forall a b c x y z,
+      is_derive (fun t => K a b c t y z) x (K (S a) b c x y z)
+      /\ is_derive (fun t => K a b c x t z) y (K a (S b) c x y z)
+      /\ is_derive (fun t => K a b c x y t) z (K a b (S c) x y z)) ->
+  forall ox oy oz x y z, pd3 ox oy oz (K 0 0 0)%nat x y z = K ox oy oz x y z.
+Proof.
+  intro T.
+  assert (Z : forall n a b c x y z, Derive_n (fun t => K a b c x y t) n z = K a b (n + c)%nat x y z).
+  { induction n as [|n IH]; intros a b c x y z; [reflexivity|].
+    rewrite Derive_n_S_inner. rewrite (Derive_n_ext _ (fun t => K a b (S c) x y t)).
+    - rewrite IH. f_equal. lia.
+    - intro t. apply is_derive_unique. apply T. }
+  assert (Y : forall n a b c x y z, Derive_n (fun t => K a b c x t z) n y = K a (n + b)%nat c x y z).
+  { induction n as [|n IH]; intros a b c x y z; [reflexivity|].
+    rewrite Derive_n_S_inner. rewrite (Derive_n_ext _ (fun t => K a (S b) c x t z)).
+    - rewrite IH. f_equal. lia.
+    - intro t. apply is_derive_unique. apply T. }
+  assert (X : forall n a b c x y z, Derive_n (fun t => K a b c t y z) n x = K (n + a)%nat b c x y z).
+  { induction n as [|n IH]; intros a b c x y z; [reflexivity|].
+    rewrite Derive_n_S_inner. rewrite (Derive_n_ext _ (fun t => K (S a) b c t y z)).
+    - rewrite IH. f_equal. lia.
+    - intro t. apply is_derive_unique. apply T. }
+  intros ox oy oz x y z. unfold pd3.
+  rewrite (Derive_n_ext _ (fun x' => K 0%nat oy oz x' y z)).
+  - rewrite X. f_equal. lia.
+  - intro x'. rewrite (Derive_n_ext _ (fun y' => K 0%nat 0%nat oz x' y' z)).
+    + rewrite Y. f_equal. lia.
+    + intro y'. rewrite Z. f_equal. lia.
+Qed.
+
+(* pd3 is linear over finite sums of functions with differentiable mixed partials *)
+Lemma pd3_rsum m (c : nat -> R) (h : nat -> R -> R -> R -> R) :
+  (forall i, (i < m)%nat -> smooth3 (h i)) ->
+  forall ox oy oz x y z,
+  pd3 ox oy oz (fun x y z => rsum m (fun i => c i * h i x y z)) x y z
+  = rsum m (fun i => c i * pd3 ox oy oz (h i) x y z).
+Proof.
+  intros Hh ox oy oz x y z.
+  apply (pd3_tower (fun a b c' x y z => rsum m (fun i => c i * pd3 a b c' (h i) x y z))).
+  intros a b c' x' y' z'. split; [|split].
+  - apply (is_derive_rsum m (fun i t => c i * pd3 a b c' (h i) t y' z')). intros i Hi.
+    apply (is_derive_scal (fun t => pd3 a b c' (h i) t y' z') x' (c i)). apply (Hh i Hi).
+  - apply (is_derive_rsum m (fun i t => c i * pd3 a b c' (h i) x' t z')). intros i Hi.
+    apply (is_derive_scal (fun t => pd3 a b c' (h i) x' t z') y' (c i)). apply (Hh i Hi).
+  - apply (is_derive_rsum m (fun i t => c i * pd3 a b c' (h i) x' y' t)). intros i Hi.
+    apply (is_derive_scal (fun t => pd3 a b c' (h i) x' y' t) z' (c i)). apply (Hh i Hi).
+Qed.
+
+Section Gamma.
+Variable n : nat.
+Variable P : nat -> nat -> R.
+Variable f : nat -> R -> R -> R -> R.
+Hypothesis Hf : forall a, (a < n)%nat -> smooth3 (f a).
+
+(* G(o1,o2)(r) = d^o1_r d^o2_r' gamma(r, r') at r' = r: what evaluate_deriv_reduced_density_matrix stands for *)
+Theorem GR_is_deriv_gamma ox oy oz ox' oy' oz' x y z :
+  GR n P f (ox, oy, oz) (ox', oy', oz') x y z
+  = pd3 ox oy oz (fun x1 y1 z1 =>
+      pd3 ox' oy' oz' (fun x2 y2 z2 => gammaR n P f x1 y1 z1 x2 y2 z2) x y z) x y z.
+Proof.
+  rewrite GR_unfold. cbn [fst snd].
+  rewrite (pd3_ext ox oy oz _
+     (fun x1 y1 z1 => rsum n (fun a =>
+        rsum n (fun b => P a b * pd3 ox' oy' oz' (f b) x y z) * f a x1 y1 z1))).
+  - rewrite (pd3_rsum n (fun a => rsum n (fun b => P a b * pd3 ox' oy' oz' (f b) x y z)) f Hf).
+    apply DP.rsum_ext. intros a _. rewrite <- rsum_scal_r. apply DP.rsum_ext. intros b _. ring.
+  - intros x1 y1 z1.
+    rewrite (pd3_ext ox' oy' oz' _
+       (fun x2 y2 z2 => rsum n (fun b => rsum n (fun a => P a b * f a x1 y1 z1) * f b x2 y2 z2))).
+    + rewrite (pd3_rsum n (fun b => rsum n (fun a => P a b * f a x1 y1 z1)) f Hf).
+      rewrite (DP.rsum_ext n _ (fun b => rsum n (fun a => P a b * pd3 ox' oy' oz' (f b) x y z * f a x1 y1 z1))).
+      * rewrite DP.rsum_swap. apply DP.rsum_ext. intros a _.
+        exact (rsum_scal_r n (f a x1 y1 z1) (fun b => P a b * pd3 ox' oy' oz' (f b) x y z)).
+      * intros b _. rewrite <- rsum_scal_r. apply DP.rsum_ext. intros a _. ring.
+    + intros x2 y2 z2. unfold gammaR. rewrite DP.rsum_swap. apply DP.rsum_ext. intros b _.
+      rewrite <- rsum_scal_r. reflexivity.
+Qed.
+End Gamma.
+
 (* ------------------------------------------------------------------ *)
 (* 3. C06 over R: the jets of density.py are the real derivatives of rho *)
 (* ------------------------------------------------------------------ *)
@@ -632,10 +721,6 @@ End C15Density.
 (* ------------------------------------------------------------------ *)
 (* 5. positivity over R for P = C C^T                                   *)
 (* ------------------------------------------------------------------ *)
-Lemma rsum_scal_l m c (h : nat -> R) : rsum m (fun i => c * h i) = c * rsum m h.
-Proof. induction m as [|m IH]; cbn [DP.rsum]; [ring|]. rewrite IH. ring. Qed.
-Lemma rsum_scal_r m c (h : nat -> R) : rsum m (fun i => h i * c) = rsum m h * c.
-Proof. induction m as [|m IH]; cbn [DP.rsum]; [ring|]. rewrite IH. ring. Qed.
 
 (* P = C C^T with r columns *)
 Definition gram (r : nat) (C : nat -> nat -> R) : nat -> nat -> R :=
@@ -669,3 +754,95 @@ Proof. exact (DP.density_nonneg n (gram r C) (phiR f x y z) (gram_psd n r C)). Q
 Theorem ked_nonneg_real x y z : 0 <= tplusR n (gram r C) f x y z.
 Proof. exact (DP.ked_nonneg n (gram r C) (phiR f x y z) (gram_psd n r C)). Qed.
 End Positivity.
+
+(* ------------------------------------------------------------------ *)
+(* 6. the instance: the functions and derivatives the MODELS return     *)
+(* ------------------------------------------------------------------ *)
+(* symbols, density, kinetic energy density of a basis: f_a := bfun basis a, the number evaluate_basis_model
+   returns for function a at the point; phi^o_a := pd3 o (bfun basis a), the number evaluate_deriv_basis_model
+   returns (bdfun, jet_instance below) *)
+Definition Gb (basis : list (shell R)) (P : nat -> nat -> R) : fam := GR (nfun basis) P (bfun basis).
+Definition rhob (basis : list (shell R)) (P : nat -> nat -> R) : R -> R -> R -> R :=
+  rhoR (nfun basis) P (bfun basis).
+Definition tplusb (basis : list (shell R)) (P : nat -> nat -> R) : R -> R -> R -> R :=
+  tplusR (nfun basis) P (bfun basis).
+(* the one-electron reduced density matrix gamma(r, r') = sum_ab P_ab bfun_a(r) bfun_b(r') *)
+Definition gammab (basis : list (shell R)) (P : nat -> nat -> R) : R -> R -> R -> R -> R -> R -> R :=
+  gammaR (nfun basis) P (bfun basis).
+
+Section Instance.
+Variable basis : list (shell R).
+Hypothesis W : List.Forall shell_wf basis.
+Variable P : nat -> nat -> R.
+
+Lemma Hfb : forall a, (a < nfun basis)%nat -> smooth3 (bfun basis a).
+Proof. intros a Ha. now apply smooth3_bfun. Qed.
+
+(* item 1: the jets instantiated with real derivatives.  (a) the numbers phi^o_a are what the derivative MODEL
+   returns; (b) G(o1,o2)(r) is the double sum over the density matrix of these numbers; (c) the product rule
+   that DEFINES the total derivative of a symbol is its real partial derivative along each axis *)
+Theorem jet_instance :
+  (forall ox oy oz a x y z, (a < nfun basis)%nat ->
+     phiR (bfun basis) x y z (ox, oy, oz) a = bdfun basis (ox, oy, oz) a x y z)
+  /\ (forall ox oy oz ox' oy' oz' x y z,
+        Gb basis P (ox, oy, oz) (ox', oy', oz') x y z
+        = rsum (nfun basis) (fun a => rsum (nfun basis) (fun b =>
+            P a b * bdfun basis (ox, oy, oz) a x y z * bdfun basis (ox', oy', oz') b x y z)))
+  /\ (forall o1 o2 x y z,
+        is_derive (fun t => Gb basis P o1 o2 t y z) x
+                  (Gb basis P (bump 0 o1) o2 x y z + Gb basis P o1 (bump 0 o2) x y z)
+        /\ is_derive (fun t => Gb basis P o1 o2 x t z) y
+                  (Gb basis P (bump 1 o1) o2 x y z + Gb basis P o1 (bump 1 o2) x y z)
+        /\ is_derive (fun t => Gb basis P o1 o2 x y t) z
+                  (Gb basis P (bump 2 o1) o2 x y z + Gb basis P o1 (bump 2 o2) x y z)).
+Proof.
+  split; [|split].
+  - intros ox oy oz a x y z Ha. unfold phiR. cbn [fst snd]. symmetry. now apply closed_deriv_model.
+  - intros ox oy oz ox' oy' oz' x y z. unfold Gb. rewrite GR_unfold. cbn [fst snd].
+    apply DP.rsum_ext. intros a Ha. apply DP.rsum_ext. intros b Hb.
+    now rewrite !closed_deriv_model.
+  - exact (GR_closed (nfun basis) P (bfun basis) Hfb).
+Qed.
+
+Lemma Gb_is_deriv_gamma ox oy oz ox' oy' oz' x y z :
+  Gb basis P (ox, oy, oz) (ox', oy', oz') x y z
+  = pd3 ox oy oz (fun x1 y1 z1 =>
+      pd3 ox' oy' oz' (fun x2 y2 z2 => gammab basis P x1 y1 z1 x2 y2 z2) x y z) x y z.
+Proof. exact (GR_is_deriv_gamma (nfun basis) P (bfun basis) Hfb ox oy oz ox' oy' oz' x y z). Qed.
+
+Lemma Gb_closed : closed (Gb basis P).
+Proof. exact (GR_closed (nfun basis) P (bfun basis) Hfb). Qed.
+End Instance.
+
+(* ------------------------------------------------------------------ *)
+(* 7. the hypotheses are satisfiable: an s shell and a p shell          *)
+(* ------------------------------------------------------------------ *)
+Definition ex_shell_s : shell R := mkShell R 0 0 0 0 [1] [[1]] false [] [].
+Definition ex_basis_sp : list (shell R) := [ex_shell_s; ex_shell_p].
+(* a rank-2 density matrix C C^T on the four functions *)
+Definition ex_C (a m : nat) : R := match m with O => 1 | _ => INR a end.
+Definition ex_P : nat -> nat -> R := gram 2 ex_C.
+
+Example ex_sp_hypotheses :
+  List.Forall shell_wf ex_basis_sp /\ nfun ex_basis_sp = 4%nat
+  /\ (forall a b, ex_P a b = ex_P b a) /\ (forall v, 0 <= DP.quad 4 ex_P v).
+Proof.
+  split; [|split; [|split]].
+  - constructor; [apply default_shell_wf; [reflexivity|cbn; lia|reflexivity]|].
+    constructor; [apply default_shell_wf; [reflexivity|cbn; lia|reflexivity]|constructor].
+  - unfold nfun, ex_basis_sp, descr_basis. cbn [map concat]. rewrite !app_length, !descr_length, !nrows_eq.
+    reflexivity.
+  - intros a b. apply gram_sym.
+  - intro v. apply gram_psd.
+Qed.
+
+(* the theorems apply to it: e.g. the second derivative d^2/dxdz of the model's formula is that of the real density *)
+Example ex_sp_deriv_density x y z :
+  DJ.eval RK (at_pt (Gb ex_basis_sp ex_P) x y z) (DJ.shortcut RK (1, 0, 1)%nat)
+  = pd3 1 0 1 (rhob ex_basis_sp ex_P) x y z
+  /\ 0 <= rhob ex_basis_sp ex_P x y z.
+Proof.
+  destruct ex_sp_hypotheses as [W [N [Ps _]]]. split.
+  - apply (deriv_density_real (nfun ex_basis_sp) ex_P (bfun ex_basis_sp) (Hfb ex_basis_sp W) Ps).
+  - apply rho_nonneg_real.
+Qed.
